@@ -42,7 +42,15 @@ fn child(kind: &str, seed: u64) -> Vec<String> {
     let consumed = rng.below(sent as u64 + 1) as u32;
     let listeners = rng.range(1, 2) as usize;
     let release_before_teardown = rng.chance(1, 2);
-    let mut out = vec![format!("history kind={kind} sent={sent} consumed={consumed} listeners={listeners} release_before_teardown={release_before_teardown}")];
+    // zero-copy Uni channels: `cycles` events go through first (sent, received, released: their slots then carry the bytes of payloads that
+    // were destroyed already), and a producer may abandon a claimed slot: a reservation that is never sent nor cancelled, or a setter that panics
+    let cycles = rng.below(7) as u32;
+    let abandon = ["none", "none", "reserve", "panic"][rng.below(4) as usize];
+    // (an abandoned claim keeps its slot: one event fewer fits)
+    let zc_kind = kind.starts_with("uni_zc");
+    let sent = if zc_kind && abandon != "none" { sent.min(3) } else { sent };
+    let consumed = consumed.min(sent);
+    let mut out = vec![format!("history kind={kind} sent={sent} consumed={consumed} listeners={listeners} release_before_teardown={release_before_teardown} cycles={cycles} abandon={abandon}")];
     println!("{}", out[0]); { use std::io::Write; std::io::stdout().flush().ok(); }
     macro_rules! multi { ($ty:ty, $shared:expr) => {{
         let ch = <$ty>::new("t");
@@ -67,6 +75,17 @@ fn child(kind: &str, seed: u64) -> Vec<String> {
     macro_rules! uni { ($ty:ty, $zc:expr) => {{
         let ch = <$ty>::new("t");
         let (mut stream, _id) = ch.create_stream();
+        if $zc {
+            for c in 0..cycles {
+                assert!(ch.send_with(move |slot| unsafe { std::ptr::write(slot, mk(100 + c)) }).is_ok(), "send rejected");
+                let h = poll(&mut stream).expect("event not delivered"); let _ = h.id; drop(h);
+            }
+            match abandon {
+                "reserve" => { let _ = ch.reserve_slot(); }
+                "panic" => { let r = std::panic::catch_unwind(std::panic::AssertUnwindSafe(|| { let _ = ch.send_with(|_slot| panic!("setter gives up")); })); assert!(r.is_err()); }
+                _ => {}
+            }
+        }
         for i in 0..sent { assert!(ch.send_with(move |slot| unsafe { std::ptr::write(slot, mk(i)) }).is_ok(), "send rejected"); }
         let mut held = vec![];
         for _ in 0..consumed { if let Some(h) = poll(&mut stream) { held.push(h) } }
@@ -80,6 +99,10 @@ fn child(kind: &str, seed: u64) -> Vec<String> {
             if d > 1 { out.push(format!("VIOLATION destroyed_twice payload {i} destroyed {d} times")); }
             if i < consumed && (release_before_teardown || !$zc) && d == 0 { out.push(format!("VIOLATION never_destroyed payload {i} was delivered and released but never destroyed")); }
         }
+        if $zc { for c in 0..cycles {
+            let d = DROPS[100 + c as usize].load(SeqCst);
+            if d != 1 { out.push(format!("VIOLATION {} payload #{} of the warm-up cycles (delivered and released long before the teardown) was destroyed {d} times", if d > 1 { "destroyed_twice" } else { "never_destroyed" }, 100 + c)); }
+        } }
     }}}
     match kind {
         "multi_ogre_arc_atomic" => multi!(ChannelMultiOgreArcAtomic<Tracked, 4, 2>, true),
